@@ -210,19 +210,43 @@ class VecInterp {
   enum Cls { K_GROW, K_ERASE, K_RESERVE, K_SHRINK, K_MOVEDST, K_MOVESRC, K_SWAP, K_READ, K_OTHER };
 
   // ---------------------------------------------------------------- checks after an op on slot i
+  // A disagreement with std::vector is reported; when it is not the property being checked the case goes on with the
+  // model re-synchronised from what the container shows (the consequences may concern the checked property).
   void compare_model(int i, const char *what) {
+    const uint64_t soft0 = ctx().nonfatal_soft;
+    compare_model_impl(i, what);
+    if (ctx().nonfatal_soft != soft0 && !tainted()) resync_model(i, what);
+  }
+  void resync_model(int i, const char *what) {
+    V &c = *s[i].c;
+    long size = static_cast<long>(c.size());
+    if (size < 0 || size > 2000 || size > static_cast<long>(c.capacity())) {
+      violation(P01 | PSOFT, "%s: container state too inconsistent to go on (size %ld)", what, size);
+      return;
+    }
+    std::vector<int> now;
+    for (long k = 0; k < size; ++k) {
+      if (!ET<E>::readable(c.data()[k])) {
+        violation(P01 | P02, "%s: element %ld cannot be read, the case cannot go on", what, k);
+        return;
+      }
+      now.push_back(val_of(c.data()[k]));
+    }
+    s[i].m = now;
+  }
+  void compare_model_impl(int i, const char *what) {
     V &c = *s[i].c;
     const std::vector<int> &m = s[i].m;
     if (static_cast<size_t>(c.size()) != m.size()) {
-      violation(P01, "%s: size() is %ld, std::vector has %zu", what, static_cast<long>(c.size()), m.size());
+      violation(P01 | PSOFT, "%s: size() is %ld, std::vector has %zu", what, static_cast<long>(c.size()), m.size());
       return;
     }
-    if (c.empty() != m.empty()) violation(P01, "%s: empty() disagrees with std::vector", what);
+    if (c.empty() != m.empty()) violation(P01 | PSOFT, "%s: empty() disagrees with std::vector", what);
     const V &cc = c;
     typename V::const_iterator it = cc.begin();
     for (size_t k = 0; k < m.size(); ++k, ++it) {
       if (it == cc.end()) {
-        violation(P01, "%s: iteration ends after %zu of %zu elements", what, k, m.size());
+        violation(P01 | PSOFT, "%s: iteration ends after %zu of %zu elements", what, k, m.size());
         return;
       }
       int v;
@@ -233,16 +257,16 @@ class VecInterp {
       }
       if (tainted()) return;
       if (v != m[k]) {
-        violation(P01, "%s: element %zu is %d, std::vector has %d", what, k, v, m[k]);
+        violation(P01 | PSOFT, "%s: element %zu is %d, std::vector has %d", what, k, v, m[k]);
         return;
       }
     }
-    if (it != cc.end()) violation(P01, "%s: iteration continues past size()", what);
+    if (it != cc.end()) violation(P01 | PSOFT, "%s: iteration continues past size()", what);
     if (!m.empty()) {
-      if (val_of(cc.front()) != m.front()) violation(P01, "%s: front() differs", what);
-      if (val_of(cc.back()) != m.back()) violation(P01, "%s: back() differs", what);
+      if (val_of(cc.front()) != m.front()) violation(P01 | PSOFT, "%s: front() differs", what);
+      if (val_of(cc.back()) != m.back()) violation(P01 | PSOFT, "%s: back() differs", what);
       size_t mid = m.size() / 2;
-      if (val_of(cc[static_cast<ST>(mid)]) != m[mid]) violation(P01, "%s: operator[] differs", what);
+      if (val_of(cc[static_cast<ST>(mid)]) != m[mid]) violation(P01 | PSOFT, "%s: operator[] differs", what);
     }
   }
 
